@@ -3,6 +3,7 @@
 import json, os, re, sys
 ROOT = os.path.dirname(os.path.dirname(os.path.abspath(__file__)))
 DETECT = {
+    "C01b": ("C02", "in-lock-chain-broken:mem / status-history:not-linearizable:mem", "an interleaving defect (the in-memory read hoisted out of the per-invocation lock): not visible to C01, whose quantifier is sequential; reported by C02"),
     # id: (check that catches it, signature family seen, note)
     "C03a": ("C03", "stranded:ppr/cc:at=CONCURRENCY_CONTROLLED/q0:after=end-of-role:crash=none", ""),
     "C03b": ("C14", "heartbeat-for-dead-worker:mtr", "not a C03 violation on the repaired tree: fix 4c56e5f prunes the dead child in the same loop iteration, recovery is delayed by one iteration only"),
